@@ -822,18 +822,6 @@ FINDINGS = {
                                               or s["tle"]["etype"] != 0)),
     "c13-kvn-bracket-in-text": _p(lambda k, d: k == "kvn-bracket-in-text" and d.get("fmt") == "kvn",
                                   lambda s, d: s["sample"].startswith("omm_bluebook")),
-    # TDM writers print each measure date with its own clock under the TIME_SYSTEM of the first one
-    "c13-tdm-dates-keep-their-label": _p(lambda k, d: k in ("tdm-epoch", "kvn-vs-xml:tdm-epoch"),
-                                         lambda s, d: s["type"] == "tdm" and _mixed(s)),
-    # OPM / OEM writers run change_scale() on dates that already carry the declared label: up to 2 us
-    "c13-same-label-date-rounded-twice": lambda facet, case, kind, msg, data: (
-        kind in ("epoch", "man-epoch") and case["obj"]["type"] in ("opm", "oem")
-        and (m := re.search(r"instant differs by (-?[0-9.e+-]+) s", msg)) is not None
-        and 1e-6 < abs(float(m.group(1))) <= 2.1e-6),
-    # Ephem.copy() / ephem() forget method, order, name and cospar_id
-    "c13-ephem-copy-drops-settings": lambda facet, case, kind, msg, data: (
-        kind in ("interp-order", "interp-method", "name", "cospar_id") and case["obj"]["type"] == "oem"
-        and case.get("clone") == "copy()"),
     "c13-xml-empty-text": _p(lambda k, d: k == "xml-empty-text", lambda s, d: _empty_text(s)),
     "c13-kvn-man-comment-split": _p(lambda k, d: k == "man-comment" and d.get("fmt") == "kvn", _comment_token),
 }
